@@ -28,11 +28,13 @@ type entryHook struct {
 	Func string
 	Var  string // vfhook variable name
 	Observe bool // the hook only watches: the function goes on after it (default: the hook replaces the function)
+	Call string // "pkg.Func": instead of a function entry, every call of pkg.Func in the file becomes vfhook.<Var>(same arguments)
 }
 
 var entryHooks = []entryHook{
-	{File: "lib/authutil/authutil.go", Recv: "", Func: "CheckLDAPUserPassword", Var: "CheckLDAPUserPassword"},
-	{File: "lib/authutil/authutil.go", Recv: "", Func: "CheckLDAPConnection", Var: "CheckLDAPConnection"},
+	// the directory is simulated at the wire for password checks: the TLS dial of lib/authutil is the seam, the real
+	// gopkg.in/ldap.v2 client speaks LDAP (BER) with the simulated server over an in-bubble pipe
+	{File: "lib/authutil/authutil.go", Call: "tls.DialWithDialer", Var: "LDAPDial"},
 	{File: "lib/authutil/authutil.go", Recv: "", Func: "GetLDAPUserGroups", Var: "GetLDAPUserGroups"},
 	{File: "lib/authutil/authutil.go", Recv: "", Func: "GetLDAPUserAttributes", Var: "GetLDAPUserAttributes"},
 	// the VIP service is simulated at the wire: the real request building and response evaluation of lib/vip run
@@ -588,6 +590,27 @@ func instrumentEntryHooks(path string, hooks []entryHook) ([]byte, int, error) {
 	done := 0
 	for _, h := range hooks {
 		found := false
+		if h.Call != "" {
+			pkg, fn, _ := strings.Cut(h.Call, ".")
+			ast.Inspect(f, func(x ast.Node) bool {
+				call, ok := x.(*ast.CallExpr)
+				if !ok {
+					return true
+				}
+				if se, ok := call.Fun.(*ast.SelectorExpr); ok {
+					if id, ok := se.X.(*ast.Ident); ok && id.Name == pkg && se.Sel.Name == fn {
+						call.Fun = &ast.SelectorExpr{X: ast.NewIdent("vfhook"), Sel: ast.NewIdent(h.Var)}
+						found = true
+						done++
+					}
+				}
+				return true
+			})
+			if !found {
+				return nil, 0, fmt.Errorf("no call of %s found in %s", h.Call, path)
+			}
+			continue
+		}
 		for _, d := range f.Decls {
 			fd, ok := d.(*ast.FuncDecl)
 			if !ok || fd.Name.Name != h.Func || fd.Body == nil {
